@@ -24,11 +24,13 @@ USER_GDEF = {
     "none": "",
     "classes": "table GDEF { GlyphClassDef [b], [f_i], [acutecomb], [a]; } GDEF;\n",
     "carets": "table GDEF { LigatureCaretByPos f_i 123 456; } GDEF;\n",
+    # two caret statements and no GlyphClassDef before them
+    "carets2": "table GDEF { LigatureCaretByPos f_i 123 456; LigatureCaretByIndex a 1; } GDEF;\n",
 }
 CARET_NAMES = ["caret_1", "caret_2", "caret_3", "caret_4", "vcaret_1", "vcaret_2"]
 CARET_COORDS = [100, 300, 300.5, 50, 0, -40]
 CURS_GLYPHS = [("a", 0x61), ("beh-ar", 0x628), ("period", 0x2E), ("x.alt", None)]
-CURS_SHAPES = ["none", "entry", "exit", "both", "ltr", "rtl"]
+CURS_SHAPES = ["none", "entry", "exit", "both", "ltr", "rtl", "swsh"]  # swsh: entry.swsh + exit.swsh
 ENTRY, EXIT = (0, 10.5), (500.5, -0.5)
 
 
@@ -74,8 +76,10 @@ class C18(Property):
             if combo[3] == 6 and combo[4] == 6:  # quick: user GDEF variants on the 7^3 sub-cube
                 for u in b["cat_user_sample"]:
                     out.append([{"part": "cat", "map": list(combo), "user": u}])
-        for u in ("none", "classes", "carets"):
+        for u in ("none", "classes", "carets", "carets2"):
             out.append([{"part": "caret", "user": u}])
+        for combo in itertools.product(range(len(CAT_VALUES)), repeat=2):
+            out.append([{"part": "cat", "map": [combo[0], combo[1], 2, 6, 6], "user": "carets2"}])
         for combo in itertools.product(range(len(CURS_SHAPES)), repeat=len(CURS_GLYPHS)):
             for gs in b["curs_gsub"]:
                 out.append([{"part": "curs", "shapes": list(combo), "gsub": gs}])
@@ -130,6 +134,9 @@ class C18(Property):
         if c["user"] == "carets":
             if lay.lig_carets() != {"f_i": [(1, 123), (1, 456)]}:
                 viols.append(violation("user-carets-changed", feat, observed=lay.lig_carets()))
+        if c["user"] == "carets2":
+            if lay.lig_carets() != {"f_i": [(1, 123), (1, 456)], "a": [(2, 1)]}:
+                viols.append(violation("user-carets-changed", feat, observed=lay.lig_carets()))
         ctr = {"category_maps": 1, "maps_naming_unexported": int(any(n in cats for n in ("skipme", "ghost"))),
                "maps_with_invalid_value": int("bogus" in cats.values())}
         return Result(viols, ctr, digest(sorted(lay.classes.items())), nontrivial=1 if want else 0)
@@ -152,7 +159,9 @@ class C18(Property):
         got = lay.lig_carets()
         viols = []
         feat = {"user": c["user"]}
-        if c["user"] == "carets":
+        if c["user"] == "carets2":
+            want = {"f_i": [123, 456], "a": [1]}
+        elif c["user"] == "carets":
             want = {"f_i": [123, 456]}
         else:
             vals = sorted({otround(CARET_COORDS[ci]) for n, ci in hist})
@@ -163,7 +172,7 @@ class C18(Property):
             for g in want:
                 if obs[g] != sorted(obs[g]) or set(obs[g]) != set(want[g]):
                     ok = False
-                if any(f != 1 for f, _ in got[g]):
+                if any(f != 1 for f, _ in got[g]) and c["user"] != "carets2":
                     ok = False
         if not ok:
             viols.append(violation("lig-carets", feat, anchors=hist, expected=want, observed=got))
@@ -191,6 +200,9 @@ class C18(Property):
                 g["anchors"] += [("entry.LTR", *ENTRY), ("exit.LTR", *EXIT)]
             if sh == "rtl":
                 g["anchors"] += [("entry.RTL", *ENTRY), ("exit.RTL", *EXIT)]
+            if sh == "swsh":
+                # an undirected suffix family that sorts AFTER .LTR / .RTL
+                g["anchors"] += [("entry.swsh", *ENTRY), ("exit.swsh", *EXIT)]
             glyphs[n] = g
         spec = {"glyphs": glyphs, "order": list(glyphs)}
         if c["gsub"]:
@@ -225,6 +237,8 @@ class C18(Property):
             if sh in ("entry", "exit", "both") and has_entry and has_exit:
                 want.add((n, rE if sh in ("entry", "both") else None, rX if sh in ("exit", "both") else None,
                           n not in ltr_glyphs))
+            elif sh == "swsh":
+                want.add((n, rE, rX, n not in ltr_glyphs))
             elif sh == "ltr":
                 want.add((n, rE, rX, False))
             elif sh == "rtl":
@@ -242,8 +256,8 @@ class C18(Property):
             viols.append(violation("cursive-records", feat, shapes=shapes, missing=sorted(want - got, key=str),
                                    unexpected=sorted(got - want - optional, key=str)))
         if len(recs) != len({(li, g) for li, _, g, _, _ in recs}) or \
-                len({g for _, _, g, _, _ in recs if shapes[g] in ("entry", "exit", "both")}) != \
-                len([1 for _, _, g, _, _ in recs if shapes[g] in ("entry", "exit", "both")]):
+                len({g for _, _, g, _, _ in recs if shapes.get(g) in ("entry", "exit", "both")}) != \
+                len([1 for _, _, g, _, _ in recs if shapes.get(g) in ("entry", "exit", "both")]):
             viols.append(violation("cursive-duplicate-record", feat, shapes=shapes, records=recs))
         ctr = {"curs_states": 1, "curs_mixed_direction": int(any(r[3] for r in want) and any(not r[3] for r in want)),
                "curs_records_expected": len(want)}
